@@ -664,15 +664,19 @@ end
 
 
 /-- the scan `parse_included_files` (oq3_source_file) does over the top-level statements BEFORE
-analysis starts: `include.file().unwrap()`, `file.to_string().unwrap()`; returns whether a
-top-level include other than "stdgates.inc" exists -/
+analysis starts: an include without a path (`include.file()?`, `file.to_string()?`) is skipped;
+returns whether a top-level include other than "stdgates.inc" exists -/
 def parseIncludedFiles : List Ast.Stmt → M Bool
   | [] => pure false
   | .includeStmt _ file :: rest => do
-    let file ← unwrap "parse_included_files: include.file() is None" file
-    let filePath ← unwrap "parse_included_files: file.to_string() is None" file.toString?
-    let r ← parseIncludedFiles rest
-    pure (filePath != "stdgates.inc" || r)
+    match file with
+    | none => parseIncludedFiles rest
+    | some file =>
+      match file.toString? with
+      | none => parseIncludedFiles rest
+      | some filePath =>
+        let r ← parseIncludedFiles rest
+        pure (filePath != "stdgates.inc" || r)
   | _ :: rest => parseIncludedFiles rest
 
 /-- the statement loop of `syntax_to_semantic` -/
